@@ -69,9 +69,13 @@ impl RoutingTable {
     // === Public Methods ===
 
     pub(crate) fn reset_id(&mut self, id: Id) {
-        let old_nodes = self.to_owned_nodes();
+        let mut old_nodes = self.to_owned_nodes();
         self.buckets = Default::default();
         self.id = id;
+
+        // Nodes from different old buckets can end up in the same new bucket, and a bucket
+        // evicts its first node: keep every bucket in least-recently-seen order.
+        old_nodes.sort_by_key(|node| node.0.last_seen);
 
         for node in old_nodes {
             self.add(node);
